@@ -152,6 +152,11 @@ class DispDouble:
             elif y == "two":
                 self.yielded = make_states(["R", "A2"], f"{self.name}.y")
                 out = list(self.yielded)
+            elif y == "many":  # one disposable yielding a dozen states of distinct types
+                from hv.ctxkit import WIDE
+
+                self.yielded = make_states(list(WIDE), f"{self.name}.y")
+                out = list(self.yielded)
             elif y == "gen":  # any Iterable[State] is legal: a generator
                 self.yielded = make_states(["R", "A2"], f"{self.name}.y")
                 out = (st for st in list(self.yielded))
